@@ -105,7 +105,9 @@ func TestVerifC20Exhaustive(t *testing.T) {
 		}
 		if d.bad {
 			out.Linef("stat harness_timeouts 1")
-			if w.fatalSent.Load() > w.fatalBack.Load() {
+			if d.lostWatchErr {
+				out.Linef("viol sig=C20/runloop/watch-error-notification-lost state=%s: a provider sent an error notification, the run loop never acted on it (Run has not returned)", w.col.GetState())
+			} else if w.fatalSent.Load() > w.fatalBack.Load() {
 				out.Linef("viol sig=C20/runloop/run-wedged-while-fatal-error-report-pending state=%s: a component's FatalError report has not come back and the Run goroutine stopped making progress", w.col.GetState())
 			} else {
 				out.Linef("viol sig=C20/harness/run-goroutine-did-not-reach-expected-point at=%s", d.at)
